@@ -189,8 +189,12 @@ def prop(name, opt, mm, v, y=None, dtype="float64"):
         ys = impl(name, opt, mm, s, dtype=dtype)
         if isinstance(ys, str) or not np.array_equal(ys, s):
             return f"symmetric input changed: {tag}"
-    tol = 1e-13 if dtype == "float64" else 1e-5
-    if abs(float(np.mean(y, dtype=np.float64)) - float(np.mean(v, dtype=np.float64))) > tol * max(1.0, float(np.max(np.abs(v)))):
+    # relative to the input scale (a few ulp per summand), never an absolute tolerance: tiny designs count too
+    tol = (4e-16 if dtype == "float64" else 2.4e-7) * (v.size + 4)
+    with np.errstate(over="ignore"):
+        dm = abs(float(np.mean(y / np.max(np.abs(v)), dtype=np.float64)) - float(np.mean(v / np.max(np.abs(v)), dtype=np.float64))) \
+            if np.max(np.abs(v)) > 0 else float(np.max(np.abs(y)))
+    if dm > tol:
         return f"mean changed from {float(np.mean(v))!r} to {float(np.mean(y))!r}: {tag}"
     return None
 
@@ -249,13 +253,33 @@ def mixed_shapes(rng, name, opt):
     return out[:rng.randint(2, 3)]
 
 
-def rand_array(rng, shape, special=False):
+VALUE_KINDS = ["random", "int", "nearsym", "tiny", "huge", "nearsym-tiny"]
+NEAR_EXPS = [7, 3, 12, 9, 5, 10, 6, 8, 4, 11]
+
+
+def rand_array(rng, shape, special=False, kind=None, cfg=None, k=0):
+    """values of a test array.  random: U(-2,2); int: small integers (all averages exact);
+    nearsym: EXACTLY symmetric under the transform's own mirror map, then perturbed entry-wise by a relative 1e-3 …
+    1e-12 (an implementation that decides 'already symmetric' with a tolerance returns it unchanged: not invariant);
+    tiny: all magnitudes 1e-9 … 1e-30 (below any absolute tolerance); huge: 1e30 … 1e300; nearsym-tiny: both."""
     n = int(np.prod(shape))
-    if special:          # integers: every average is exact, so even the mean is exact
+    kind = kind or ("int" if special else "random")
+    if kind == "int":
         vals = [float(rng.randint(-8, 8)) for _ in range(n)]
-    else:
-        vals = [rng.uniform(-2, 2) for _ in range(n)]
-    return np.asarray(vals, dtype=np.float64).reshape(shape)
+        return np.asarray(vals, dtype=np.float64).reshape(shape)
+    v = np.asarray([rng.uniform(-2, 2) for _ in range(n)], dtype=np.float64).reshape(shape)
+    if kind in ("nearsym", "nearsym-tiny") and cfg is not None:
+        name, opt, mm = cfg
+        s = (v + reflect(name, opt, mm, v)) / 2
+        s = (s + reflect(name, opt, mm, s)) / 2
+        delta = 10.0 ** -NEAR_EXPS[k % len(NEAR_EXPS)]
+        pert = np.asarray([rng.uniform(-1, 1) for _ in range(n)], dtype=np.float64).reshape(shape)
+        v = s * (1 + delta * pert)
+    if kind in ("tiny", "nearsym-tiny"):
+        v = v * 10.0 ** -rng.randint(9, 30)
+    if kind == "huge":
+        v = v * 10.0 ** rng.choice([30, 100, 250, 300])
+    return v
 
 
 def model_line(name, opt, mm, v):
@@ -274,7 +298,9 @@ def run(ctx):
     for (name, opt, mm) in configs():
         for rep_i in range(reps):
             for shape in shapes_for(rng, name, opt):
-                v = rand_array(rng, shape, special=(ci % 5 == 0))
+                vkind = VALUE_KINDS[ci % len(VALUE_KINDS)]
+                ok_shape = valid_shape(name, opt, shape)
+                v = rand_array(rng, shape, kind=vkind if ok_shape else "random", cfg=(name, opt, mm), k=ci // len(VALUE_KINDS))
                 init = ci % 2 == 0
                 keys = ("p",) if ci % 3 else ("p", "q")
                 y = impl(name, opt, mm, v, init=init, keys=keys)
@@ -285,7 +311,7 @@ def run(ctx):
                     ctx.expect_equal("init-2d-check", {"name": name, "shape": shape}, y if isinstance(y, str) else "ok", "error-init")
                     y = impl(name, opt, mm, v, init=False, keys=keys)
                 ctx.case(sample={**case, "impl": y.tolist()} if ci in (4, 31) else None,
-                         nontrivial=(name, opt, mm, shape) if shape != (1, 1, 1) else None, op="sym", transform=name,
+                         nontrivial=(name, opt, mm, shape) if shape != (1, 1, 1) else None, op="sym", transform=name, values=vkind,
                          option=f"{opt}/{mm}", singleton_axes=sum(1 for s in shape if s == 1),
                          first_singleton=(list(shape).index(1) if 1 in shape else "none"), initialised=init, keys=len(keys))
 
@@ -301,7 +327,7 @@ def run(ctx):
                     d = prop(name, opt, mm, v, y)
                     if d:
                         ctx.violation(case, d)
-                    if ci % 4 == 1:
+                    if ci % 4 == 1 and vkind != "huge":
                         ctx.impl_property_evals += 1
                         ctx.case(op="float32-oracle", transform=name)
                         d = prop(name, opt, mm, v, None, dtype="float32")
@@ -313,7 +339,8 @@ def run(ctx):
     for (name, opt, mm) in configs():
         for rep_i in range(ctx.scale(2, 8)):
             shapes = mixed_shapes(rng, name, opt)
-            arrays = {k: rand_array(rng, sh, special=(rep_i % 2 == 1)) for k, sh in zip(("a", "b", "c"), shapes)}
+            arrays = {k: rand_array(rng, sh, kind=VALUE_KINDS[(rep_i + j) % len(VALUE_KINDS)], cfg=(name, opt, mm), k=rep_i + j)
+                      for j, (k, sh) in enumerate(zip(("a", "b", "c"), shapes))}
             init = rep_i % 2 == 0
             out = impl_dict(name, opt, mm, arrays, init=init)
             case = {"name": name, "opt": opt, "mm": mm, "dict": {k: a.tolist() for k, a in arrays.items()}}
@@ -414,8 +441,22 @@ def search(ctx, hints):
                     return
 
 
-    # multi-entry calls mixing layouts, smallest shapes first
+    # nearly symmetric, tiny and huge inputs for every transform, small shapes first
     rng = ctx.rng.fork()
+    for top in (2, 3):
+        for shape in sorted(itertools.product(range(1, top + 1), repeat=3), key=lambda s: (s[0] * s[1] * s[2], s)):
+            for (name, opt, mm) in configs():
+                if not valid_shape(name, opt, shape) or shape == (1, 1, 1):
+                    continue
+                for k, kind in enumerate(("nearsym", "tiny", "nearsym-tiny", "huge", "nearsym")):
+                    v = rand_array(rng, shape, kind=kind, cfg=(name, opt, mm), k=k)
+                    inp = {"name": name, "opt": opt, "mm": mm, "v": v.tolist()}
+                    ctx.impl_property_evals += 1
+                    d = _eval(inp)
+                    if d:
+                        ctx.violation(inp, d)
+                        return
+    # multi-entry calls mixing layouts, smallest shapes first
     for (name, opt, mm) in configs():
         for _ in range(4):
             shapes = mixed_shapes(rng, name, opt)
